@@ -168,7 +168,9 @@ def gen_optparams(rng, allow_invalid=False):
         elif k < 0.7:
             out.append(st.OptionalParam(rng.choice(cstrs), rng.choice(['', 'abc', 'ID-42_x', 'm' * 64])))
         elif k < 0.9:
-            v = rng.choice(['', 'a', 'sub:addr', 'X' * 20, 'abc\x00'[:3]]) if not allow_invalid or rng.random() < 0.9 else 'ü'
+            # octet strings carry any octets, one per character (network_error_code 03 00 A5, subaddress type tags 0x80/0x88/0xA0);
+            # a character beyond U+00FF cannot be carried
+            v = rng.choice(['', 'a', 'sub:addr', 'X' * 20, 'abc\x00'[:3], '\x03\x00\xa5', '\x80sub', 'ü', '\xff\x00\x7f']) if not allow_invalid or rng.random() < 0.9 else 'ы€'
             out.append(st.OptionalParam(rng.choice(ostrs), v))
         else:
             out.append(st.OptionalParam(st.ALERT_ON_MESSAGE_DELIVERY, rng.random() < 0.85))
